@@ -131,6 +131,8 @@ def real_traces(groups, rng, tier, modes=('keygen', 'std', 'safe'), kms=None):
                     jobs.append((g, km, mode, dict(v, kind='partial')))
                 if rot and g['iid'] in (0, 1, 2, 5, 6, 7, 8, 9):
                     jobs.append((g, km, mode, dict(v, kind='method')))
+                if rot and (any(p['hd'] for p in g['sig']['pos']) or any(p['hd'] for p in g['sig']['ko'])):
+                    jobs.append((g, km, mode, dict(v, kind='sibling')))
                 if rot and g['iid'] in (1, 2, 3, 4, 5, 6, 7, 8, 10) and mode != 'keygen':
                     jobs.append((dict(g, bare=True), km, mode, v))
     ctx = multiprocessing.get_context('fork')
